@@ -35,7 +35,7 @@ VARIANTS = {
               "-fsanitize=" + UBSAN, "-fno-sanitize-recover=all"],
              ["-fsanitize=address", "-fsanitize=" + UBSAN], True),
     "plain": ("gcc", "g++", ["-O1", "-g"], [], True),
-    "cov": ("gcc", "g++", ["-O0", "-g", "--coverage"], ["--coverage"], True),
+    "cov": ("gcc", "g++", ["-O0", "-g", "--coverage", "-DSIM_COV"], ["--coverage"], True),
     "tsan": ("clang", "clang++",
              ["-O1", "-g", "-fsanitize=thread", "-DSIM_TSAN"],
              ["-fsanitize=thread"], False),
